@@ -34,3 +34,10 @@ CLAIMED["C04"] = ("whole-range-loop (forall) edge-cut with interprocedural nil-r
   "(that secret, that keyset's key for that amount, that C). Right level: rejection of forged/mutated proofs for all inputs rests exactly on "
   "these per-element guards; the algebra inside crypto.Verify and completeness are not claimed.",
   TRUST, "DESIGN.md §3 C04")
+CLAIMED["C05"] = ("edge-cut must-pass-through over the melt outcome decision table + backend zero-value sibling check",
+  "Decides on every path of the melt op, the melt-quote poll and the proof-state check that inputs are marked spent / the quote set PAID only "
+  "behind a Succeeded answer (or internal settlement), released / set UNPAID only behind a definitive failure after a Failed pay, with "
+  "completeness on both edges, the constants and the preimage written, guarded reads of the status field, the zero-value-means-Succeeded "
+  "hazard in every backend, the poll's scope and the resolve-before-answer order. Any extra way into a release or settle is a violation. "
+  "Right level: the reaction table is a finite code-shape fact for all answer scripts; backend truthfulness and timing are not claimed.",
+  TRUST, "DESIGN.md §3 C05")
